@@ -1057,6 +1057,26 @@ def r7(ctx):
     ctx.check(norm(asg.get("nested_parser", ast.Constant(0))) == "nested_parser or parser or DEFAULT_NESTED_PARSER" and
               norm(asg.get("parser", ast.Constant(0))) == "parser or DEFAULT_PARSER", "C01.R7", "parser defaulting order", f.where,
               ctx.construct(f, text="parser defaults"), "nested_parser must default to parser, then DEFAULT_NESTED_PARSER; parser to DEFAULT_PARSER")
+    # keyword / tuple structure: every nested piece goes through the same from_spec with the container's ordering, parsers and context
+    pi = P.method("formulaic.formula.StructuredFormula", "_prepare_item", inherited=False)
+    calls_pi = [c for c in ast.walk(pi.node) if isinstance(c, ast.Call) and norm(c.func) == "Formula.from_spec"]
+    ok = len(calls_pi) == 1 and norm(calls_pi[0].args[0]) == "item" and {k.arg: norm(k.value) for k in calls_pi[0].keywords} == {
+        "ordering": "self._ordering", "parser": "self._parser if key == 'root' else self._nested_parser", "nested_parser": "self._nested_parser", "context": "self._context"}
+    ctx.check(ok, "C01.R7", "nested pieces of a structured formula are built with the container's ordering, parsers and context", pi.where,
+              ctx.construct(pi, text="prepare item"), f"_prepare_item calls `{norm(calls_pi[0])[:160] if calls_pi else None}`")
+    si = P.method("formulaic.formula.StructuredFormula", "__init__", inherited=False)
+    t = norm(si.node)
+    ok = "self._ordering = OrderingMethod(_ordering)" in t and "self._parser = _parser or DEFAULT_PARSER" in t and \
+        "self._nested_parser = _nested_parser or _parser or DEFAULT_NESTED_PARSER" in t and "self._context = _context" in t and \
+        t.index("self._context = _context") < t.index("super().__init__(root, **structure)")
+    ctx.check(ok, "C01.R7", "the container's ordering/parsers/context are set before its items are prepared", si.where, ctx.construct(si, text="init order"),
+              "StructuredFormula.__init__ must set _ordering/_parser/_nested_parser/_context before super().__init__ prepares the items")
+    mc = P.func("formulaic.formula._FormulaMeta.__call__")
+    t = norm(mc.node)
+    ok = "if root is MISSING and (not structure): return SimpleFormula([])" in t.replace("\n", " ") and "if structure: return StructuredFormula(root, _parser=_parser, _nested_parser=_nested_parser, _ordering=_ordering, _context=_context, **structure)._simplify()" in t.replace("\n", " ") \
+        and "return cls.from_spec(cast(FormulaSpec, root), ordering=_ordering, parser=_parser, nested_parser=_nested_parser, context=_context)" in t
+    ctx.check(ok, "C01.R7", "Formula(...) dispatches: nothing → empty formula; keywords → structured; otherwise from_spec with all options forwarded", mc.where,
+              ctx.construct(mc, text="Formula() dispatch"), "Formula.__call__ dispatch changed")
     # ordering is forwarded to every constructed formula
     ctors = [c for c in ast.walk(fn) if isinstance(c, ast.Call) and dotted(c.func) in ("StructuredFormula", "SimpleFormula")]
     ctx.floor("C01.R7", len(ctors), 4, "formula constructions in from_spec")
